@@ -54,6 +54,7 @@ LocPerts == {"none", "hash", "exp_future", "exp_past", "expchar_future", "expcha
              "exp_long", "noat"}
 Malformed == {"nosig", "sigchar_nonhex", "expchar_nonhex", "sig_short", "sig_long", "exp_short",
               "exp_long", "noat"}
+LenOnly == {"sig_short", "sig_long", "exp_short", "exp_long"}
 VerPerts == {"none", "token", "ttl", "key"}
 
 \* what was signed
@@ -88,8 +89,8 @@ Init ==
                    before |-> nb, after |-> na, present |-> pr]
        \/ \E sz \in BOOLEAN, sh \in Shapes :
              cs = [kind |-> "manifest", size |-> sz, shape |-> sh]
-    /\ inp = IF cs.kind = "verify" THEN [wf |-> PWf(cs), same |-> Same(cs)]
-                                   ELSE [wf |-> TRUE, same |-> TRUE]
+    /\ inp = IF cs.kind = "verify" THEN [wf |-> PWf(cs), same |-> Same(cs), lenonly |-> cs.ploc \in LenOnly]
+                                   ELSE [wf |-> TRUE, same |-> TRUE, lenonly |-> FALSE]
     /\ pc = IF cs.kind = "verify" THEN "match" ELSE "signtok"
     /\ res = "none"
     /\ ksstatus = 0
@@ -126,7 +127,7 @@ KsReply ==
     /\ ksstatus' = CASE res = "expired" -> 401
                      [] res = "ok"      -> IF cs.present THEN 200 ELSE 404
                      [] OTHER           -> 403
-    /\ C!VerifyKs(PRel(cs), res = "ok")        \* keepstore's VerifySignature wrapper
+    /\ C!VerifyKs(PRel(cs), IF res \in {"ok", "expired"} THEN res ELSE "denied")        \* keepstore's VerifySignature wrapper
     /\ C!KsGet(PRel(cs), ksstatus')
     /\ pc' = "done"
     /\ UNCHANGED <<cs, res, out>>
@@ -184,7 +185,7 @@ Terminates == <>Done
 ------------------------------------------------------------------------------
 (* Scenario emission: the case, its classification and the model's prediction (for drift only). *)
 Emit == Done =>
-          Serialize(<<[id |-> TLCGet("distinct"), cs |-> cs, wf |-> inp.wf, same |-> inp.same,
+          Serialize(<<[id |-> TLCGet("distinct"), cs |-> cs, wf |-> inp.wf, same |-> inp.same, lenonly |-> inp.lenonly,
                        expect |-> res, expect_ks |-> ksstatus, expect_out |-> out]>>,
                     IOEnv.VERIF_OUT,
                     [format |-> "NDJSON", charset |-> "UTF-8",
